@@ -1,6 +1,8 @@
 package main
 
 import (
+	"os/exec"
+	"context"
 	"encoding/json"
 	"fmt"
 	"os"
@@ -77,7 +79,7 @@ func routedTo(c *Contract, label, prop string) bool {
 	if len(c.Routes) == 0 {
 		return true
 	}
-	for _, tok := range strings.FieldsFunc(label, func(r rune) bool { return r == ':' || r == '@' }) {
+	for _, tok := range strings.FieldsFunc(label, func(r rune) bool { return r == ':' || r == '@' || r == '#' }) {
 		if ps, ok := c.Routes[tok]; ok {
 			return hasProp(ps, prop)
 		}
@@ -132,15 +134,41 @@ func (eng *Engine) checkProperty(prop, tier string) int {
 	if prop == "C15" || prop == "" {
 		all = append(all, eng.tableObligations(verif)...)
 	}
+	// spec files whose functions are only declared in verification conditions: their lemmas are proved from the
+	// definitions (script <file>.check), and the decoding tree the real initialiser builds is compared with them
+	usedSpec := map[string]bool{}
+	for _, fx := range execs {
+		for f := range fx.specUsed {
+			usedSpec[f] = true
+		}
+	}
+	for _, f := range sortedStrings(usedSpec) {
+		chk := strings.TrimSuffix(f, ".smt2") + ".check"
+		if _, err := os.Stat(chk); err == nil {
+			all = append(all, eng.specLemmaObligation(chk))
+			if strings.Contains(f, "huffman_tree") {
+				all = append(all, eng.huffmanTreeObligation(verif))
+			}
+		}
+	}
 	genSecs := time.Since(t0).Seconds()
 	work := eng.workDir()
 	var cache *solveCache
 	if d := os.Getenv("H2VC_CACHE"); d != "" {
 		cache = &solveCache{dir: d}
 	}
+	known := loadKnown(verif)
+	// obligations listed as open findings are expected to fail: give them a few seconds (in case the defect has been
+	// repaired) instead of the full time limit and the second pass
+	for _, o := range all {
+		for i := range known {
+			if known[i].Status == "open" && known[i].Obligation == o.Name {
+				o.Brief = true
+			}
+		}
+	}
 	solveAll(all, work, *flagTimeout, seedFromEnv(), *flagPar, cache)
 
-	known := loadKnown(verif)
 	isKnown := func(name string) *KnownFinding {
 		for i := range known {
 			k := &known[i]
@@ -465,4 +493,122 @@ func (eng *Engine) tableObligations(verif string) []*Obligation {
 		mk(t.name, "forall s < 256: "+t.name+"[s] equals the RFC 7541 Appendix B value", bad == "", bad)
 	}
 	return out
+}
+
+// specLemmaObligation proves the lemmas of a spec file from its definitions: the script holds the definitions and the
+// negated conjunction of the lemmas, so unsat means they all hold.
+func (eng *Engine) specLemmaObligation(chk string) *Obligation {
+	o := &Obligation{Name: "spec/lemmas:" + strings.TrimSuffix(filepath.Base(chk), ".check"), Kind: "post", Func: "spec library", Label: "lemmas",
+		Src: "the lemmas handed to the verification conditions follow from the definitions in " + filepath.Base(strings.TrimSuffix(chk, ".check")+".defs")}
+	t0 := time.Now()
+	for _, sv := range []string{"z3-new", "z3"} {
+		ctx, cancel := context.WithTimeout(context.Background(), 70*time.Second)
+		out, _ := exec.CommandContext(ctx, sv, "-T:60", chk).CombinedOutput()
+		cancel()
+		first := strings.TrimSpace(strings.SplitN(string(out), "\n", 2)[0])
+		if first == "unsat" {
+			o.Status, o.Solver = "proved", sv
+			break
+		}
+		if first == "sat" {
+			o.Status, o.Solver, o.Output = "refuted", sv, string(out)
+			break
+		}
+		o.Output = string(out)
+	}
+	if o.Status == "" {
+		o.Status = "unknown"
+	}
+	o.Secs = time.Since(t0).Seconds()
+	return o
+}
+
+// huffmanTreeObligation runs the real package initialiser and walks the decoding tree it builds, comparing every
+// entry of every node with the tree defined from the RFC table (spec/huffman_tree.json). The tree is a finite
+// constant object, so this settles the declared heap invariant of huffmanNode for the tree that is actually used.
+func (eng *Engine) huffmanTreeObligation(verif string) *Obligation {
+	o := &Obligation{Name: "tables/huffmanTree", Kind: "post", Func: "huffman tables", Label: "huffmanTree", Solver: "execution of the package initialiser",
+		Src: "the tree under rootHuffmanNode equals, node by node and entry by entry, the prefix tree of the RFC 7541 Appendix B code (heapinvariant huffmanNode tree)"}
+	t0 := time.Now()
+	defer func() { o.Secs = time.Since(t0).Seconds() }()
+	dir, err := os.MkdirTemp(eng.workDir(), "tree")
+	if err != nil {
+		o.Status, o.Output = "unknown", err.Error()
+		return o
+	}
+	defer os.RemoveAll(dir)
+	src := `package http2
+
+import (
+	"encoding/json"
+	"fmt"
+	"os"
+	"testing"
+)
+
+func TestH2VCHuffmanTree(t *testing.T) {
+	var ref struct {
+		Nodes int
+		Kind, Sym, Len, Child [][]int
+	}
+	b, err := os.ReadFile("` + filepath.Join(verif, "spec", "huffman_tree.json") + `")
+	if err != nil || json.Unmarshal(b, &ref) != nil {
+		t.Fatalf("H2VC-TREE cannot read the reference tree: %v", err)
+	}
+	seen := 0
+	var walk func(n *huffmanNode, id int) string
+	walk = func(n *huffmanNode, id int) string {
+		seen++
+		if n == nil || len(n.sub) != 256 {
+			return fmt.Sprintf("node %d is not an inner node with 256 entries", id)
+		}
+		for b := 0; b < 256; b++ {
+			e := n.sub[b]
+			switch ref.Kind[id][b] {
+			case 0:
+				if e != nil {
+					return fmt.Sprintf("node %d entry %d: expected nothing", id, b)
+				}
+			case 1:
+				if e == nil || e.sub != nil || int(e.sym) != ref.Sym[id][b] || int(e.codeLen) != ref.Len[id][b] {
+					return fmt.Sprintf("node %d entry %d: expected leaf sym=%d len=%d, have %+v", id, b, ref.Sym[id][b], ref.Len[id][b], e)
+				}
+			case 2:
+				if e == nil || e.sub == nil {
+					return fmt.Sprintf("node %d entry %d: expected an inner node", id, b)
+				}
+				if m := walk(e, ref.Child[id][b]); m != "" {
+					return m
+				}
+			}
+		}
+		return ""
+	}
+	if m := walk(rootHuffmanNode, 0); m != "" {
+		t.Fatalf("H2VC-TREE mismatch: %s", m)
+	}
+	if seen != ref.Nodes {
+		t.Fatalf("H2VC-TREE mismatch: %d inner nodes, expected %d", seen, ref.Nodes)
+	}
+	fmt.Println("H2VC-TREE ok", seen)
+}
+`
+	testFile := filepath.Join(dir, "zz_h2vc_tree_test.go")
+	_ = os.WriteFile(testFile, []byte(src), 0o644)
+	ov := map[string]map[string]string{"Replace": {filepath.Join(eng.repo, "zz_h2vc_tree_test.go"): testFile}}
+	ob, _ := json.Marshal(ov)
+	ovFile := filepath.Join(dir, "overlay.json")
+	_ = os.WriteFile(ovFile, ob, 0o644)
+	ctx, cancel := context.WithTimeout(context.Background(), 300*time.Second)
+	defer cancel()
+	out, _ := exec.CommandContext(ctx, "sh", "-c", fmt.Sprintf("cd %s && go test -overlay %s -vet=off -count=1 -timeout 120s -run '^TestH2VCHuffmanTree$' -v .", eng.repo, ovFile)).CombinedOutput()
+	switch {
+	case strings.Contains(string(out), "H2VC-TREE ok"):
+		o.Status = "proved"
+	case strings.Contains(string(out), "H2VC-TREE mismatch"):
+		o.Status, o.Output = "refuted", truncate(string(out), 1500)
+	default:
+		o.Status, o.Output = "unknown", truncate(string(out), 1500)
+	}
+	return o
 }
